@@ -13,7 +13,7 @@
                                             cache directory with fault / crash schedules)
 
   The Accept-Encoding scanner is modelled specification-style (split on ',', then on ';',
-  then on ' ') rather than as the C pointer loop; the correspondence check `h_deflate`
+  then on SP / HTAB) rather than as the C pointer loop; the correspondence check `h_deflate`
   (op `ae`, exhaustive over short strings on the metacharacter alphabet) ties it to the C.
 
   Weights: the scanner honours "q=0" (RFC 9110 12.4.2: weight 0 = not acceptable).  The
@@ -22,6 +22,10 @@
   repaired scanner (see PROPOSED_FIX in tools/ltv/props/c19.py).
 
   zlib itself is external: the compressor is a parameter `compress : Coding → Bytes → Bytes`.
+
+  Outside the model: deflate.max-loadavg (0), concurrent modification of the source while it
+  is being compressed (reading the source is atomic with its stat), the one-second validity of
+  the stat cache, other codings (brotli / zstd / bzip2 are not compiled in), libdeflate.
 -/
 import LtVerif.Model.Basic
 namespace LtVerif.Deflate
